@@ -185,6 +185,15 @@ def check(ctx):
     # canceller call sites: calls whose callee is a local bound from self._canceller, or self._canceller(...)
     aliases = {t.id for st in statements(f) if isinstance(st, ast.Assign) and _is_self_attr(st.value, "_canceller")
                for t in st.targets if isinstance(t, ast.Name)}
+    # a local is a faithful stand-in for self._canceller in a TEST only if it is never given another value: a name that is
+    # also assigned None / something else (e.g. in an exception handler) says nothing about whether a canceller existed
+    def _pure(n):
+        stores = sum(1 for x in ast.walk(f) if isinstance(x, ast.Name) and x.id == n and isinstance(x.ctx, (ast.Store, ast.Del)))
+        from_attr = sum(1 for st in statements(f) if isinstance(st, ast.Assign) and _is_self_attr(st.value, "_canceller")
+                        for t in st.targets if isinstance(t, ast.Name) and t.id == n)
+        return stores == from_attr
+    pure_aliases = {n for n in aliases if _pure(n)}
+
     def is_canceller_call(x):
         return isinstance(x, ast.Call) and ((isinstance(x.func, ast.Name) and x.func.id in aliases) or _is_self_attr(x.func, "_canceller"))
     csites = g.find(is_canceller_call)
@@ -208,7 +217,7 @@ def check(ctx):
     arm = g.ids(lambda n: n.kind == "stmt" and isinstance(n.ast, ast.Assign) and any(_is_self_attr(t, "_suppressAlreadyCalled") for t in n.ast.targets))
     ctx.check(bool(arm), "cancel/suppress-armed", q, "cancel() without a canceller no longer arranges to swallow the later result")
     for a in arm:
-        has_canceller_false = any((lab == "F") and (src(g.node(t).ast) in aliases or src(g.node(t).ast) == "self._canceller")
+        has_canceller_false = any((lab == "F") and (src(g.node(t).ast) in pure_aliases or src(g.node(t).ast) == "self._canceller")
                                   for t, lab in g.edge_guards(a))
         ctx.check(has_canceller_false and g.guarded(a, lambda e: _test_is(e, "self.called"), False), "cancel/suppress-only-without-canceller",
                   ctx.construct(q, g.node(a).ast), "the suppression flag is armed although a canceller exists (its result would be dropped)")
@@ -308,4 +317,17 @@ MUTANTS += [
     Mutant("fallback-canceller-chosen-with-or-but-suppression-armed-always", DEFER, _CANCEL_OLD,
            _CANCEL_DEFAULT + "            self._suppressAlreadyCalled = True\n",
            more=[(DEFER, _CLASS_HEAD, "def _noCanceller(d):\n    pass\n\n\n" + _CLASS_HEAD)], expect_rule="cancel/suppress-only-without-canceller"),
+]
+MUTANTS += [
+    # the local standing for the canceller is cleared on some path and then read as "there was no canceller"
+    Mutant("canceller-local-cleared-then-read-as-absent", DEFER, _CANCEL_OLD,
+           "            canceller = self._canceller\n            if canceller:\n                canceller(self)\n"
+           "                if self.debug:\n                    canceller = None\n"
+           "            if not canceller:\n                self._suppressAlreadyCalled = True\n",
+           expect_rule="cancel/suppress-only-without-canceller"),
+]
+SILENT += [
+    Silent("no-canceller-branch-as-a-second-test-of-the-same-local", DEFER, _CANCEL_OLD,
+           "            canceller = self._canceller\n            if canceller:\n                canceller(self)\n"
+           "            if not canceller:\n                self._suppressAlreadyCalled = True\n"),
 ]
